@@ -162,6 +162,8 @@ def gen_maildir(rng, box, nmax=6, fixed=None):
         name = uniq
         if sub == b"cur":
             name += rng.choice([b":2,", b":2,S", b":2,RS", b":1,x", b""])
+        elif rng.random() < 0.08:
+            name += rng.choice([b":2,S", b":1", b":2,", b":x"])      # moved back to new/ by a reader ("mark unread"), or restored by a sync tool
         data = gen_message(rng) if fixed is None else fixed[i]
         mt = base + (0 if ties else rng.randrange(100000) * 7 + i)
         p = os.path.join(md.encode(), sub, name)
@@ -552,6 +554,12 @@ class Judge:
             with open(found[u][0], "rb") as f:
                 if f.read() != data:
                     return self.violate("C19/final/content-changed", "message %s changed" % core.hx(u), uid=core.hx(u))
+            m0 = sess.by_uid[u]
+            want = (b"cur/" + m0.name + b":2,") if (m0.subdir == b"new" and getattr(sess, "updated", False)) else (m0.subdir + b"/" + m0.name)
+            got = os.path.relpath(found[u][0], md.encode())
+            if got != want:
+                return self.violate("C19/final/file-name", "message %s is now %s, documented: %s" % (core.hx(u), core.hx(got), core.hx(want)),
+                                    uid=core.hx(u))
         for u in gone:
             if u in found:
                 return self.violate("C19/final/marked-not-removed", "message %s was marked and QUIT was given, still there" % core.hx(u),
